@@ -165,7 +165,7 @@ func Gen(seed uint64, tier string) any {
 			c.Exch = append(c.Exch, e)
 		}
 		if c.Net == "udp" && core.Chance(r, 30) {
-			c.Spoof = 1 + r.IntN(3)
+			c.Spoof = core.Pick(r, 1, 2, 3, 9, 20)
 		}
 		if c.Net == "tcp" && core.Chance(r, 20) {
 			c.Pipeline = true
@@ -577,11 +577,11 @@ func (c *clientTask) RunEvent(time.Time) {
 			// forged replies with IDs nobody uses, arriving at various times
 			f := new(dns.Msg)
 			f.SetQuestion("forged.test.", dns.TypeTXT)
-			f.Id = uint16(60000 + c.ci*8 + i)
+			f.Id = uint16(60000 + c.ci*32 + i)
 			f.Response = true
 			b, _ := f.Pack()
 			k.Lock()
-			x.n.InjectToClient(dconn, b, time.Duration(1+i*7)*time.Millisecond)
+			x.n.InjectToClient(dconn, b, time.Duration(1+i*7%40)*time.Millisecond)
 			k.Unlock()
 		}
 	}
